@@ -748,10 +748,17 @@ class Exec:
         ext = a.rng.pick({'ds9': ['.reg', '.ds9'], 'crtf': ['.crtf'],
                           'fits': ['.fits', '.fit']}[fmt])
         name = f'w{a.r % 1000003}{ext}'
-        path = os.path.join(self.disk, name)
         explicit = a.rng.chance(0.5)
         over = a.rng.pick([None, True, False])
-        if a.fault.get('kind') == 'os_fail':
+        shared = a.rng.chance(0.3)
+        if shared:
+            # a path that other calls of this history also use, under a name
+            # that says nothing about the format: written with the format
+            # given and overwrite=True, read back by content signature
+            name = a.rng.pick(['shared1.dat', 'shared2'])
+            explicit, over = True, True
+        path = os.path.join(self.disk, name)
+        if a.fault.get('kind') == 'os_fail' and not shared:
             a.fired = True
             if a.rng.chance(0.5):
                 with open(path, 'wb') as fh:      # existing destination
@@ -769,9 +776,32 @@ class Exec:
             target.write(path, **wkw)
             with open(path, 'rb') as fh:
                 data = fh.read()
-            back = Regions.read(path, format=fmt if explicit else None)
+            back = Regions.read(path, format=None if shared else
+                                (fmt if explicit else None))
             return [hashlib.sha1(data).hexdigest(), len(data), back]
         return fn, f'{_n(target)}.write+read({name},{sorted(wkw)})', None
+
+    def op_shared_io(self, a):
+        """Write to a path that other calls of this history also use, under a
+        name that says nothing about the format (format given, overwrite=
+        True), then read it back by content signature."""
+        from regions import Regions
+        target = a.slot(('pixreg', 'skyreg'))
+        sky = 'Sky' in _n(target)
+        fmt = a.rng.pick(['ds9', 'crtf'] if sky else ['ds9', 'fits', 'crtf'])
+        kw = {}
+        if fmt == 'crtf' and not sky:
+            kw['coordsys'] = 'image'
+        name = a.rng.pick(['shared1.dat', 'shared2'])
+        path = os.path.join(self.disk, name)
+
+        def fn():
+            target.write(path, format=fmt, overwrite=True, **kw)
+            with open(path, 'rb') as fh:
+                data = fh.read()
+            return [hashlib.sha1(data).hexdigest(), len(data),
+                    Regions.read(path)]
+        return fn, f'{_n(target)}.write+read({name},shared,{fmt})', None
 
     def op_read_data(self, a):
         import regions
@@ -876,7 +906,7 @@ class Exec:
                     if sel.random() < 0.34:
                         check.add(i)
                 self.check_pool(j, rec, check, stats)
-                if name not in ('write_read', 'read_data'):
+                if name not in ('write_read', 'read_data', 'shared_io'):
                     after_disk = self.disk_canon()
                     if after_disk != before_disk:
                         self.violation('I1-disk', j, rec,
@@ -1254,7 +1284,8 @@ OPS = [('contains', 3), ('in', 1), ('sky_contains', 2), ('area_bbox', 2),
        ('to_pixel', 3), ('rotate', 2), ('copy', 2), ('combine', 1.5),
        ('as_artist', 2.5), ('mpl_kwargs', 1), ('eq', 1.5), ('repr', 1),
        ('polygon', 0.7), ('pixcoord', 2), ('serialize', 6), ('parse', 5),
-       ('write_read', 3), ('read_data', 1.5), ('get_formats', 0.5),
+       ('write_read', 3), ('shared_io', 2.5), ('read_data', 1.5),
+       ('get_formats', 0.5),
        ('regions_ops', 1.5)]
 FAULT_OPS = {
     'bad_arg': ['contains', 'in', 'to_mask', 'mask_apply', 'rotate',
@@ -1298,7 +1329,7 @@ def gen_plan(seed, index, tier='quick'):
                     op['fault']['k'] = max(1, int(10 ** f_rng.uniform(0, 3.6)))
         ops.append(op)
         if ops_rng.chance(0.2) and len(ops) < n and \
-                k not in ('write_read', 'read_data') and \
+                k not in ('write_read', 'read_data', 'shared_io') and \
                 op.get('fault', {}).get('kind') != 'line_abort':
             op['store'] = False
             rep = dict(op)
